@@ -20,6 +20,7 @@ and translated into the tiny language of coq/theories/Fxp.v:
   Idx "x" k      x[k].integral, x[k][k'].integral  flag of ONE element of list operand x
                  (k = 0 is the design's `First xs`)
   AllOf "x"      all(a.integral for a in x)      flags of all elements of x
+                 (all(... for a in x + y) = And (AllOf "x") (AllOf "y"); `for r in A for a in r` = AllOf "A")
   Const b | And | Or | Not
   Pub "text"     public condition not reading any flag (types, public operands)
   Ctor "text"    flag inferred by the constructor from a public value
@@ -220,6 +221,21 @@ class FuncAnalysis:
                             if it in env and env[it][0] == 'Param':
                                 it = env[it][1]
                             return AllOf(it)
+                    # `for a in x + y`: concatenation of list operands -> AllOf x AND AllOf y
+                    if len(gens) == 1 and isinstance(gens[0].target, ast.Name) and not gens[0].ifs:
+                        names = concat_names(gens[0].iter)
+                        if names and len(names) >= 2:
+                            var = gens[0].target.id
+                            env2 = dict(env)
+                            env2[var] = ('LoopVar', var)
+                            e = self.tr(a.elt, env2)
+                            if self.only_loopflag(e, var):
+                                out = None
+                                for nm in names:
+                                    if nm in env and env[nm][0] == 'Param':
+                                        nm = env[nm][1]
+                                    out = AllOf(nm) if out is None else And(out, AllOf(nm))
+                                return out
                 if mentions_integral(node) or self.calls_local(node):
                     return Other(src(node))
                 return Pub(src(node))
@@ -459,6 +475,17 @@ class FuncAnalysis:
         self.block(self.fn.body, env)
 
 
+def concat_names(node):
+    """[x, y, ...] when node is the list concatenation x + y (+ ...) of plain names, else None."""
+    if isinstance(node, ast.Name):
+        return [node.id]
+    if isinstance(node, ast.BinOp) and isinstance(node.op, ast.Add):
+        l, r = concat_names(node.left), concat_names(node.right)
+        if l and r:
+            return l + r
+    return None
+
+
 def reads_loop(e):
     return e[0] == 'LoopFlag' or any(isinstance(x, tuple) and reads_loop(x) for x in e[1:])
 
@@ -572,6 +599,8 @@ MODELLED = [
     ('runtime:Runtime.mul#1', 'rule_mul'), ('runtime:Runtime.lshift#1', 'rule_lshift'),
     ('runtime:Runtime.sum#1', 'rule_sum'), ('runtime:Runtime.in_prod#1', 'rule_in_prod'),
     ('runtime:Runtime.prod#1', 'rule_sum'),
+    # elementwise list operations: all elements of both lists (allof_rule_sound_elementwise)
+    ('runtime:Runtime.vector_add#1', 'rule_in_prod'), ('runtime:Runtime.vector_sub#1', 'rule_in_prod'),
 ]
 
 
